@@ -946,6 +946,9 @@ def run(ctx):
         "address space of a worker limited to 3 GiB: a MemoryError under that limit on an input of a few KiB counts",
         "self-consistency is judged for ingested objects (recomputed SHA-1 vs name, via a fresh reader), for artefacts whose reader verifies a checksum (index, loose object, pack index check()) "
         "and for the pack trailer on paths that are handed the raw pack; unverified reads through a damaged pack index (misnamed data, as in C git) are reported, not alarmed on",
+        "loose-object bombs: both encodings x every route of the size limit x payload under/over x every loose read path; judged by returned size and the peak of "
+        "traced allocations (tracemalloc) against the cap (over: refused and peak <= 2*cap + 8 MiB; the default 512 MiB cap is exceeded only in the thorough tier, "
+        "a payload just under the default is not inflated)",
         "a failing unlink of what the transaction itself installed (rollback) or of a lock file is not injected; leftover tmp_pack_*/tmp*.pack/.pack-without-.idx files are reported, not alarmed on",
         "SHA-1, zlib and CRC-32 come from the Python standard library (projection); attack deltas are valid deltas built by the harness; pure-Python dulwich (extension modules blocked)",
     ]
